@@ -105,18 +105,20 @@ def obligations(tier, rng):
     dfs = [(k, X) for k in dun] + [(k, X, a, b) for k in dunt for a, b in [(0, 1), (1, 2)]]
     for f in dfs:
         for n, e in ([(2, 1), (3, 1), (2, 2)] if quick else [(2, 1), (3, 1), (2, 2), (3, 2), (4, 1)]):
-            out.append(ob('C16', 'ct', 'ct/%s/n=%d+%d' % (text(f), n, e), f=f, ns=[n], ext=[e], max_paths=30000, wall=900))
+            out.append(ob('C16', 'ct', 'ct/%s/n=%d+%d' % (text(f), n, e), f=f, ns=[n], ext=[e], max_paths=30000, wall=(300 if quick else 900)))
     for k in dbin:
         f = (k, X, Y)
         for ns, e in ([([2, 2], [1, 1])] if quick else [([2, 2], [1, 1]), ([2, 2], [1, 0]), ([3, 2], [1, 1])]):
-            out.append(ob('C16', 'ct', 'ct/%s/n=%s+%s' % (text(f), ns, e), f=f, ns=ns, ext=e, max_paths=60000, wall=1500))
+            out.append(ob('C16', 'ct', 'ct/%s/n=%s+%s' % (text(f), ns, e), f=f, ns=ns, ext=e, max_paths=60000, wall=(300 if quick else 1500)))
     for f in [('since_t', X, Y, 0, 1), ('until_t', X, Y, 0, 1)]:
         if quick:
-            out.append(ob('C16', 'ct', 'ct/%s/n=[2, 2]+[1, 0]' % text(f), f=f, ns=[2, 2], ext=[1, 0], max_paths=60000, wall=1500))
+            out.append(ob('C16', 'ct', 'ct/%s/n=[2, 2]+[1, 0]' % text(f), f=f, ns=[2, 2], ext=[1, 0], max_paths=60000, wall=(300 if quick else 1500)))
             continue        # 2+1 / 2+1 samples take ~5 min each: thorough tier
-        out.append(ob('C16', 'ct', 'ct/%s/n=[2, 2]+[1, 1]' % text(f), f=f, ns=[2, 2], ext=[1, 1], max_paths=60000, wall=1500))
+        out.append(ob('C16', 'ct', 'ct/%s/n=[2, 2]+[1, 1]' % text(f), f=f, ns=[2, 2], ext=[1, 1], max_paths=60000, wall=(300 if quick else 1500)))
+    for f in ([] if quick else [('until_t', X, Y, 1, 2), ('since_t', X, Y, 1, 2)]):      # > 5 min each
+        out.append(ob('C16', 'ct', 'ct/%s/n=[2, 2]+[0, 2]' % text(f), f=f, ns=[2, 2], ext=[0, 2], max_paths=60000, wall=(300 if quick else 1500)))
     for f in [('eventually_t', ('not', X), 0, 1), ('once', ('always_t', X, 0, 1)), ('always_t', ('eventually_t', X, 0, 1), 0, 1),
               ('and', ('eventually_t', X, 0, 1), ('once', X))]:
-        out.append(ob('C16', 'ct', 'ct/nested/%s/n=2+1' % text(f), f=f, ns=[2], ext=[1], max_paths=60000, wall=1500))
+        out.append(ob('C16', 'ct', 'ct/nested/%s/n=2+1' % text(f), f=f, ns=[2], ext=[1], max_paths=60000, wall=(300 if quick else 1500)))
     seen = set()
     return [o for o in out if not (o['oid'] in seen or seen.add(o['oid']))]
